@@ -88,7 +88,7 @@ def scenarios(ctx):
         init = CONNECTED_P + ((('setwin', 0, win),) if win != 1 else ())
         out.append(Std('pub-q2-w%d' % win, profile='pub', init=init, connects=[(False, 0, 4)],
                        reconnects=[(False, 0, 4)], pub_qos=(2,),
-                       budgets=dict(pub=2 if q else 3, ack=4 if q else 5, dack=1, misack=1, tick=2 if q else 3, lose=1 if q else 2, rebuild=2,
+                       budgets=dict(pub=2, ack=4, dack=1, misack=1, tick=2 if q else 3, lose=1 if q else 2, rebuild=2,
                                     connect=2, connack=2, stray=0 if q else 1)))
     out.append(Std('pubsub-q2-v31', profile='pubsub', init=(('connect', 0, False, 0, 3), ('connack', 0, 0, False)),
                    connects=[(False, 0, 3)], reconnects=[(False, 0, 3)], pub_qos=(2,),
